@@ -23,7 +23,7 @@ ASSUMPTIONS = ['differential check against sim/model.py, written from the proper
                'model and system share CPython Decimal/list/dict/str']
 REAL = ['smartquery.*', 'decimal', 'copy']
 STUB = ['host (names mapping owner, probes t/call/attempt)']
-REACH_PROBES = ('judged_value', 'judged_lang', 'judged_other', 'recursion', 'calluser', 'lambda', 'ops_counter_compared',
+REACH_PROBES = ('judged_value', 'judged_lang', 'judged_other', 'recursion', 'calluser', 'lambda', 'ops_counter_compared', 'ops_lower_bound_checked', 'second_names_mapping',
                 'hostcall')
 
 
@@ -34,6 +34,8 @@ def _world(r):
     fns = ['t', 'call', 'attempt'] if r.random() < 0.4 else []
     w = {'names': names, 'host_fns': fns}
     if r.random() < 0.3:
+        w['second'] = {nm: gen.host_value_spec(r, 2, floats=False) for nm in r.sample(['a', 'b', 'c', 'x', 'y', 'z'], r.randint(0, 4))}
+    if r.random() < 0.3:
         w['cache'] = r.choice([{'kind': 'dict'}, {'kind': 'lru', 'bound': 2}])
     return w
 
@@ -43,21 +45,30 @@ def generate(seed, tier):
     rc, ro = S['config'], S['ops']
     world = _world(rc)
     model = history.model_only(world)
+    spaces = [model.host]
+    if world.get('second') is not None:
+        m2 = history.model_only({'names': world['second'], 'host_fns': world['host_fns']})
+        spaces.append(m2.host)
+        for k, v in list(m2.host.items()):
+            if getattr(v, '_sim_kind', '').startswith('host:'):
+                m2.host[k] = model.host[k]       # one set of host functions, one probe log
     arity = {}
     ops = []
     for _ in range(rc.randint(1, 6)):
-        env = {k: type_of(v) for k, v in model.host.items() if not getattr(v, '_sim_kind', '').startswith('host:')}
-        arity = {k: len(v.params) for k, v in model.host.items() if getattr(v, '_sim_kind', '') == 'lambda'}
+        si = ro.randrange(len(spaces))
+        cur = spaces[si]
+        env = {k: type_of(v) for k, v in cur.items() if not getattr(v, '_sim_kind', '').startswith('host:')}
+        arity = {k: len(v.params) for k, v in cur.items() if getattr(v, '_sim_kind', '') == 'lambda'}
         g = ProgGen(ro, env, max_depth=ro.choice([2, 3, 3, 4]), allow_host=world['host_fns'], fn_arity=arity,
                     probes=bool(world['host_fns']) and ro.random() < 0.3)
         if ops and ro.random() < 0.15:
             prev = ro.choice(ops)       # the same source text again, in a possibly different names state
-            ops.append(dict(prev))
+            ops.append(dict(prev, space=si))
             prog = prev['prog']
         else:
             prog = g.program()
-            ops.append({'op': 'eval', 'prog': prog, 'style': gen.style(S['render']), 'kinds': sorted(g.kinds)})
-        out = model.run(prog)
+            ops.append({'op': 'eval', 'prog': prog, 'style': gen.style(S['render']), 'kinds': sorted(g.kinds), 'space': si})
+        out = model.run(prog, names=cur if si else None)
         if out[0] == 'unspec':
             break
     return {'world': world, 'ops': ops}
@@ -65,12 +76,25 @@ def generate(seed, tier):
 
 def execute(case, ctx):
     W = history.World(case['world'])
+    second = None
+    if case['world'].get('second') is not None:
+        # a second host names mapping served by the same parser and the same host functions
+        rn = {k: lang.dec_value(v) for k, v in case['world']['second'].items()}
+        mn = {k: lang.dec_value(v) for k, v in case['world']['second'].items()}
+        for k in case['world'].get('host_fns', ()):
+            rn[k] = W.names[k]
+            mn[k] = W.model.host[k]
+        second = (rn, mn)
     judged_n = 0
     interesting = False
     for step, op in enumerate(case['ops']):
         ctx.step = step
         rec = monitors.Rec()
-        judged, rout, mout = W.eval_and_judge(ctx, op, step, rec=rec)
+        if op.get('space') and second:
+            ctx.probe('second_names_mapping')
+            judged, rout, mout = W.eval_and_judge(ctx, op, step, rec=rec, names=second[0], mnames=second[1])
+        else:
+            judged, rout, mout = W.eval_and_judge(ctx, op, step, rec=rec)
         if not judged:
             break
         judged_n += 1
@@ -82,6 +106,14 @@ def execute(case, ctx):
                 interesting = True
         if mout[0] != 'value' or any(k in ('setitem', 'short', 'push', 'mut', 'del', 'setitemop') for k in op.get('kinds', ())):
             interesting = True
+        if rout.kind == 'value' and mout[0] == 'value':
+            # every syntax-tree node the reference semantics evaluate is an operation: the system may have MORE nodes
+            # (placeholders, sugar) but never fewer - e.g. a fast path that returns a literal without evaluating anything
+            ctx.probe('ops_lower_bound_checked')
+            if rec.nodes < W.model.steps:
+                ctx.report('fewer_operations_than_nodes', 'step %d %r: the reference semantics evaluate %d syntax-tree nodes, the system performed only %d '
+                           'node evaluations (work that is not counted cannot be limited)' % (step, lang.render(op['prog'], op.get('style', 0))[:200], W.model.steps, rec.nodes),
+                           {'kind': 'fewer_operations_than_nodes'})
         if rout.kind == 'value' and rec.foreign == 0 and rec.state0 is not None:
             charged = getattr(rec.state0, 'ops_evaluated', None)
             if isinstance(charged, int):
